@@ -85,7 +85,7 @@ class Prop(object):
         ctx.evaluations += 15
         ctx.corr_names.append("REAL encode -> serialise -> validate: accepted, configured parameters, one picture per input in order, numbers")
         for _ in range(ctx.n(1200, 40000)):
-            cf = G.rand_config(rng)
+            cf = G.rand_config(rng, vary_metadata=True)
             pics = G.rand_pictures(rng, cf)
             why = violates(cf, pics)
             ctx.evaluations += 1
@@ -104,7 +104,7 @@ class Prop(object):
         if b:
             return b
         for _ in range(ctx.n(3000, 60000)):
-            cf = G.rand_config(rng)
+            cf = G.rand_config(rng, vary_metadata=True)
             pics = G.rand_pictures(rng, cf)
             why = violates(cf, pics)
             if why:
